@@ -14,6 +14,7 @@ mod cases_rank;
 mod cases_lenders;
 mod cases_ef;
 mod cases_rcl;
+mod cases_atomic;
 
 pub struct Rng(pub u64);
 impl Rng {
@@ -82,6 +83,7 @@ fn dispatch(case: &str, ctx: &mut Ctx, one: Option<&str>, rng: &mut Rng, budget:
     match case {
         "bitvec_iter_ones" | "bitvec_iter_zeros" | "bitvec_ops" | "bitvec_stale" => cases_bitvec::run(case, ctx, one, rng, budget),
         "ef_seq" | "ef_dict" | "ef_builder" => cases_ef::run(case, ctx, one, rng, budget),
+        "atomic" => cases_atomic::run(case, ctx, one, rng, budget),
         "rcl" => cases_rcl::run(case, ctx, one, rng, budget),
         "lenders" => cases_lenders::run(case, ctx, one, rng, budget),
         "rank9" | "rank_all" => cases_rank::run(case, ctx, one, rng, budget),
